@@ -1,4 +1,5 @@
 import Driver.Dump
+import I18nVerif.Model.Manifest
 namespace Driver
 open Lean I18nVerif
 
@@ -127,5 +128,13 @@ def opConfigNew (j : Json) : R Json := do
   return dumpRes (fun (c : Config.Config) => jobj [("default", jstr c.default), ("locales", jarr (c.locales.map jstr)),
     ("namespaces", jopt (fun l => jarr (l.map jstr)) c.namespaces), ("locales_dir", jstr c.localesDir),
     ("inherits", jarr (c.inherits.map (fun (a, b) => jarr [jstr a, jstr b])))]) (Config.new entries)
+
+/-- `split_at_config_section` and the text handed to the TOML parser -/
+def opManifestSplit (j : Json) : R Json := do
+  let m := (← strF j "text").toList
+  match Manifest.splitAtSection m, Manifest.whitespaced m with
+  | some (b, r), some w => return jobj [("before", jstr b), ("after", jstr r), ("whitespaced", jstr w)]
+  | none, none => return jobj [("absent", Json.bool true)]
+  | _, _ => .error "splitAtSection and whitespaced disagree"
 
 end Driver
